@@ -22,6 +22,7 @@ func addStat(k string, v uint64) { procStats[k] += v }
 
 func ProcessStats() map[string]uint64 {
 	procStats["yield_sites"] = uint64(len(apd.VerifSites))
+	procStats["go_statements_in_tree"] = uint64(apd.VerifGoStmts)
 	var bits uint64
 	for _, b := range sPairBits {
 		for ; b != 0; b &= b - 1 {
